@@ -98,6 +98,10 @@ class GpioWorld(World):
         wr = {"Mode": True, "Input": False, "Output": True, "SetClr": True}
         specs = [RegSpec(i, regs[nm][0], regs[nm][1], widths[nm], rd[nm], wr[nm])
                  for i, nm in enumerate(NAMES)]
+        for sp, nm in zip(specs, NAMES):
+            if (sp.end - sp.start) * dw < sp.width:
+                raise Violation("C16", "register-range-cannot-hold-the-register", 0,
+                                f"{nm} is reported at [{sp.start},{sp.end}) for {sp.width} bits")
         rf = RegFile(dw, specs)
         mapped = set()
         for s in specs:
